@@ -32,7 +32,7 @@ REMOVE3_STR = '-:'
 # newlines, hence DOTALL and no MULTILINE: '$' must only match at the end.
 NUMBER_RE = re.compile(r'^n:(-?\d+(:?\.\d+)?(:?[eE][+\-]?\d+)?)(:? (.*))?$',
                        flags=re.DOTALL)
-REF_RE = re.compile(r'^r:([a-zA-Z0-9_:\-.~]+)(:? (.*))?$',
+REF_RE = re.compile(r'^r:([a-zA-Z0-9_:\-.~]*)(:? (.*))?$',
                     flags=re.DOTALL)
 DATE_RE = re.compile(r'^d:(\d{4})-(\d{2})-(\d{2})$')
 TIME_RE = re.compile(r'^h:(\d{2}):(\d{2})(:?:(\d{2}(:?\.\d+)?))?$')
